@@ -179,6 +179,7 @@ Definition base_shape_ok (shape : string) (p : cbor) : bool :=
   else if String.eqb shape "map" then match p with CM _ => true | _ => false end
   else if String.eqb shape "tag259" then match p with CTag 259 _ => true | _ => false end
   else if String.eqb shape "tag" then match p with CTag _ _ => true | _ => false end
+  else if String.eqb shape "value" then match p with CA _ => true | CAi _ => true | CU _ => true | CN _ => true | _ => false end
   else if String.eqb shape "output" then match p with CA _ => true | CAi _ => true | CM _ => true | _ => false end
   else if String.eqb shape "auxdata" then match p with CTag 259 _ => true | CA _ => true | CAi _ => true | CM _ => true | _ => false end
   else if String.eqb shape "any" then true
